@@ -510,6 +510,13 @@ func c08(c *Ctx) {
 			}
 			nf++
 			for _, cs := range an.Calls(f) {
+				if strings.HasSuffix(cs.Name, ").SetWriteDeadline") || strings.HasSuffix(cs.Name, ").SetDeadline") {
+					// a write deadline turns a slow peer into a partial write on a connection that stays in use:
+					// the frame is cut after its length prefix and every later frame lands inside it
+					nc++
+					r.Violate("R08.S", sprintf("write-deadline:%s#%d", an.ShortName(f), nc), c.pos(cs.Pos()), "a deadline on writes: a Write that times out has put part of a frame on the wire, the mode writers keep no state about a half-written frame and the connection goes on being used")
+					continue
+				}
 				if !strings.HasSuffix(cs.Name, ").SetLinger") {
 					continue
 				}
@@ -520,7 +527,7 @@ func c08(c *Ctx) {
 			}
 		}
 		if nc == 0 {
-			r.Hold("R08.S", "linger:default", "", sprintf("%d functions of the repository, no SetLinger call", nf))
+			r.Hold("R08.S", "linger:default", "", sprintf("%d functions of the repository, no SetLinger / SetWriteDeadline / SetDeadline call", nf))
 		}
 	}
 	r.Rule("R08.B", "no function of packages mode and transport writes through a []byte parameter (WriteMsg's message stays what the caller handed over)", 2)
